@@ -161,9 +161,17 @@ func (p *Progress) Add(total int64, filler BarFiller, options ...BarOption) (*Ba
 	case p.operateState <- func(ps *pState) {
 		bs := ps.makeBarState(total, filler, options...)
 		bar := newBar(ps.ctx, p, bs)
-		if bs.waitBar != nil {
-			ps.queueBars[bs.waitBar] = bar
+		if bs.waitBar != nil && !bs.waitBar.retired {
+			// wait behind the last bar already queued for the same place
+			key := bs.waitBar
+			for qb, ok := ps.queueBars[key]; ok; qb, ok = ps.queueBars[key] {
+				key = qb
+			}
+			ps.queueBars[key] = bar
 		} else {
+			if bs.waitBar != nil {
+				bar.priority = bs.waitBar.priority
+			}
 			ps.hm.push(bar, true)
 		}
 		ps.idCount++
@@ -392,6 +400,7 @@ func (s *pState) flush(cw *cwriter.Writer, height int, iter <-chan *Bar) error {
 		switch frame.shutdown {
 		case 1:
 			b.cancel()
+			b.retired = true
 			if qb, ok := s.queueBars[b]; ok {
 				delete(s.queueBars, b)
 				qb.priority = b.priority
